@@ -1,20 +1,20 @@
 SPECIFICATION Spec
 CONSTANTS
-  Procs = {1, 2}
-  ClientOf <- C12
-  ModeOf <- MWT
+  Procs = {1}
+  ClientOf <- C1
+  ModeOf <- MW
   K = 3
   Maj = 2
   MaxCalls = 1
-  MaxIoErr = 1
+  MaxIoErr = 2
   MaxAcqErr = 0
-  MaxExtDel = 0
-  MaxExpire = 0
+  MaxExtDel = 2
+  MaxExpire = 2
   MaxDisc = 0
   MaxSrcCancel = 0
   NoLoop = TRUE
   AsyncPush = FALSE
-  FixCancelFirst = FALSE
+  FixCancelFirst = TRUE
   FixRetryTimer = TRUE
   FixLocalHandoff = TRUE
   BugExtendNoToken = FALSE
@@ -23,9 +23,10 @@ CONSTANTS
   BugLostByCause = FALSE
   BugNilNoGate = FALSE
   DiscParkedOnly = FALSE
-  Record = FALSE
-  GenLen = 0
-INVARIANTS DoneBeforeRelease
+  Record = TRUE
+  GenLen = 3
+INVARIANTS LossEmit
 
-
+CONSTRAINT LossStop
+VIEW LossView
 CHECK_DEADLOCK FALSE
